@@ -113,6 +113,7 @@ def run_job(job):
     out["process_noise_matrix"] = [[float(x) for x in row] for row in ekf.process_noise]
     out["sensor_noise_matrix"] = {k: [[float(x) for x in row] for row in v.data] for k, v in ekf.sensor_noises.items()}
     out["readings"] = {k: [str(r) for r in sm_.readings] for k, sm_ in ekf.sensor_models.items()}
+    out["Q"] = {k: [[float(x) for x in row] for row in ekf.sensor_noises[k].data] for k in ekf.sensor_models}
     out["programs"] = {
         "model": G.export_block(ekf._state_model._impl),
         "process": G.export_block(ekf._impl_process_jacobian),
